@@ -29,7 +29,9 @@ Definition kind_of (d : dm) : kind :=
 Inductive intw := W64 | W8.
 
 Inductive srepr := SMap | STuple | SStringjoin (delim : bytes) | SListpairs.
-Inductive urepr := UKeyed | UKinded | UStringprefix.
+(* stringprefix: [delim] sits between the discriminant and the member's string; the schema DSL
+   compiler always sets it to "" (the discriminant is then the whole prefix) *)
+Inductive urepr := UKeyed | UKinded | UStringprefix (delim : bytes).
 
 Record finfo := { f_name : bytes;     (* field name (type level key) *)
                   f_key : bytes;      (* serial key under the map representation (= f_name unless renamed) *)
@@ -92,6 +94,20 @@ Fixpoint is_prefix (p s : bytes) : bool :=
 Fixpoint drop {A} (n : nat) (l : list A) : list A :=
   match n, l with O, _ => l | S n', [] => [] | S n', _ :: r => drop n' r end.
 
+(* strings.SplitN(s, d, 2) for a non-empty d: the parts around the FIRST occurrence of d *)
+Fixpoint split_first (d : bytes) (acc : bytes) (s : bytes) : option (bytes * bytes) :=
+  match s with
+  | [] => None
+  | c :: r => if is_prefix d s then Some (rev acc, drop (length d) s) else split_first d (c :: acc) r
+  end.
+
+(* the first occurrence of the delimiter in  discriminant ++ delimiter  is the delimiter itself *)
+Definition first_delim_ok (dl disc : bytes) : bool :=
+  match split_first dl [] (disc ++ dl) with
+  | Some (p, r) => bytes_eqb p disc && match r with [] => true | _ => false end
+  | None => false
+  end.
+
 (* no element is a prefix of a different element *)
 Fixpoint prefix_free (l : list bytes) : bool :=
   match l with
@@ -126,7 +142,7 @@ Definition repr_kind (t : ty) : option kind :=
   | TStruct (SStringjoin _) _ => Some KString
   | TUnion UKeyed _ => Some KMap
   | TUnion UKinded _ => None
-  | TUnion UStringprefix _ => Some KString
+  | TUnion (UStringprefix _) _ => Some KString
   | TEnum true _ => Some KInt
   | TEnum false _ => Some KString
   end.
@@ -135,7 +151,7 @@ Definition okind_eqb (a : option kind) (k : kind) : bool :=
   match a with Some k' => kind_eqb k' k | None => false end.
 
 Definition is_sum_repr (t : ty) : bool :=
-  match t with TUnion UKinded _ | TUnion UStringprefix _ => true | _ => false end.
+  match t with TUnion UKinded _ | TUnion (UStringprefix _) _ => true | _ => false end.
 
 (* ------------------------------------------------------------------ well-formed schemas *)
 
@@ -163,8 +179,12 @@ Definition wf_union_local (r : urepr) (ms : list (minfo * ty)) : bool :=
       nodup_kinds (map (fun m => m_kind (fst m)) ms) &&
       forallb (fun m => okind_eqb (repr_kind (snd m)) (m_kind (fst m)) &&
                         negb (kind_eqb (m_kind (fst m)) KNull)) ms
-  | UStringprefix =>
-      prefix_free (map (fun m => m_disc (fst m)) ms) &&
+  | UStringprefix dl =>
+      (match dl with
+       | [] => prefix_free (map (fun m => m_disc (fst m)) ms)
+       | _ => nodupb (map (fun m => m_disc (fst m)) ms) &&
+              forallb (fun m => first_delim_ok dl (m_disc (fst m))) ms
+       end) &&
       forallb (fun m => okind_eqb (repr_kind (snd m)) KString) ms
   end.
 
